@@ -153,7 +153,7 @@ def send_update_message(peer_ip):
                                 ext_community.append([2, vau.strip()])
                             else:
                                 if res['peer']['capability']['remote']:
-                                    four_bytes_as = res['peer']['capability']['remote']['four_bytes_as']
+                                    four_bytes_as = res['peer']['capability']['remote'].get('four_bytes_as', False)
                                 else:
                                     return flask.jsonify({
                                         'status': False,
@@ -177,7 +177,7 @@ def send_update_message(peer_ip):
                             ext_community.append([259, vau.strip()])
                         else:
                             if res['peer']['capability']['remote']:
-                                four_bytes_as = res['peer']['capability']['remote']['four_bytes_as']
+                                four_bytes_as = res['peer']['capability']['remote'].get('four_bytes_as', False)
                             else:
                                 return flask.jsonify({
                                     'status': False,
@@ -329,7 +329,7 @@ def json_to_bin(peer_ip):
                             else:
                                 # 4 byte, need to check whether four_bytes_as is true in capability
                                 if res['peer']['capability']['remote']:
-                                    four_bytes_as = res['peer']['capability']['remote']['four_bytes_as']
+                                    four_bytes_as = res['peer']['capability']['remote'].get('four_bytes_as', False)
                                 else:
                                     return flask.jsonify({
                                         'status': False,
@@ -353,7 +353,7 @@ def json_to_bin(peer_ip):
                             ext_community.append([259, vau.strip()])
                         else:
                             if res['peer']['capability']['remote']:
-                                four_bytes_as = res['peer']['capability']['remote']['four_bytes_as']
+                                four_bytes_as = res['peer']['capability']['remote'].get('four_bytes_as', False)
                             else:
                                 return flask.jsonify({
                                     'status': False,
